@@ -365,6 +365,59 @@ def spheregroup_pieces(fn):
     return out
 
 
+# ---------------------------------------------------------------- the call route from spheregroup() to the separation routine
+
+def coq_str(t):
+    return '"%s"' % t.replace('"', '""')
+
+
+def coq_strs(items, sep=' :: '):
+    return '(%s)' % sep.join([coq_str(x) for x in items] + ['nil'])
+
+
+def src_lines(stmts):
+    """normalised source text (ast.unparse: comments and layout dropped) of straight-line statements, docstrings skipped"""
+    out = []
+    for st in stmts:
+        if isinstance(st, ast.Expr) and isinstance(st.value, ast.Constant) and isinstance(st.value.value, str):
+            continue
+        out.append(ast.unparse(st))
+    return out
+
+
+def route_pieces(cls, fns):
+    """groups.sphereradec (which routine, which arguments, which units), chunks.chunkfriendsoffriends (row order of the
+    coordinate array, conversion to radians of coordinates and linking length, metric name) and the head of spheregroup()
+    (npoints guard, chunk size rule, chunks / assign / friendsoffriends calls with their arguments) as normalised source
+    text; C05/GenRef.v holds the reference they must equal"""
+    out = ['(* the route from spheregroup() to the separation routine, as normalised source text *)']
+    sr = P.find_function(cls['groups'], 'sphereradec')
+    body = src_lines(sr.body)
+    if len(body) != 1 or not isinstance([x for x in sr.body if isinstance(x, ast.Return)][0].value, ast.Call):
+        raise U('groups.sphereradec: expected a single return of a call')
+    out.append(defn('gen_route_sphereradec_args', '', 'list string', coq_strs(a.arg for a in sr.args.args)))
+    out.append(defn('gen_route_sphereradec', '', 'list string', coq_strs(body)))
+    cf = P.find_function(cls['chunks'], 'chunkfriendsoffriends')
+    if any(not isinstance(x, (ast.Assign, ast.Return, ast.Expr)) for x in cf.body):
+        raise U('chunks.chunkfriendsoffriends: expected straight-line code')
+    out.append(defn('gen_route_chunkfof_args', '', 'list string', coq_strs(a.arg for a in cf.args.args)))
+    out.append(defn('gen_route_chunkfof', '', 'list string', coq_strs(src_lines(cf.body), ' ::\n   ')))
+    sg = fns['spheregroup']
+    head = []
+    for st in sg.body:
+        if isinstance(st, ast.For):
+            break
+        head.append(st)
+    else:
+        raise U('spheregroup: no loop after the head')
+    if not head or any(isinstance(x, (ast.While, ast.For, ast.Try, ast.With)) for st in head for x in ast.walk(st)):
+        raise U('spheregroup: head is not loop-free')
+    out.append(defn('gen_route_spheregroup_args', '', 'list string', coq_strs(a.arg for a in sg.args.args)))
+    out.append(defn('gen_route_spheregroup_defaults', '', 'list string', coq_strs(ast.unparse(d) for d in sg.args.defaults)))
+    out.append(defn('gen_route_spheregroup_head', '', 'list string', coq_strs(src_lines(head), ' ::\n   ')))
+    return out
+
+
 # ---------------------------------------------------------------- spherematch(): the two maxmatch passes (used by translate/c04.py)
 
 def greedy_pieces(fn):
@@ -393,8 +446,25 @@ def greedy_pieces(fn):
     return out
 
 
-HEADER = ['From Coq Require Import ZArith QArith String List Bool.', 'From PV Require Import C05.Imp.',
+HEADER = ['From Coq Require Import ZArith QArith String List Bool Reals.', 'From PV Require Import C05.Imp.',
           'Open Scope string_scope. Close Scope Q_scope. Open Scope Z_scope.', '']
+
+
+def gcirc_pieces(repo):
+    """the real-number reading of goddard.astro.gcirc (the routine groups.sphereradec calls), produced by the extractor of
+    translate/c18.py (imported, not modified) and wrapped in a module of this file, so that it is regenerated on C05 runs"""
+    from . import c18
+    text = c18.gen_gcirc(open(os.path.join(repo, 'pydl/goddard/astro.py')).read())
+    keep = []
+    skip = False
+    for line in text.split('\n'):
+        if line.startswith(('From ', 'Import ', 'Open Scope', '(* GENERATED')):
+            continue
+        if line.startswith('Definition gcirc_valid_units'):
+            continue
+        keep.append(line)
+    return ['(* goddard.astro.gcirc as a function on the reals (extractor: translate/c18.py gen_gcirc) *)', 'Module GcircSrc.',
+            'Local Open Scope R_scope.'] + keep + ['End GcircSrc.', '']
 
 
 def generate(repo):
@@ -409,6 +479,8 @@ def generate(repo):
         out += fof_pieces(P.find_function(cls['chunks'], 'friendsoffriends'))
         out += groups_pieces(P.find_function(cls['groups'], '__init__'))
         out += spheregroup_pieces(fns['spheregroup'])
+        out += route_pieces(cls, fns)
+        out += gcirc_pieces(repo)
         out.append('Definition groups_recognised : bool := true.')
     except (U, SyntaxError, KeyError, IndexError, AttributeError, ValueError) as e:
         info['recognised'] = False
